@@ -40,7 +40,7 @@ def run(tier, seed):
                 "r-cache explicitly; non-trivial = history with two extendPol calls of different N")
     res.assumptions = ["hand model Model/Ntt.lean tied to the code on the executed histories only"]
     st = run_gen()
-    standard_proof_phase(res, MODULE, "C19_", st, ["Scalar"], thorough=(tier == "thorough"))
+    standard_proof_phase(res, MODULE, "C19_", st, ["Scalar", "NttGen"], thorough=(tier == "thorough"))
     drv, err = build_driver()
     if err:
         res.broken.append(("model driver build", err))
